@@ -191,6 +191,31 @@ ADDED6 = {
 for _pid, _t in ADDED6.items():
     CLAIMS[_pid]["text"] = CLAIMS[_pid]["text"].rstrip() + " Round 6: " + _t
 
+# clauses added in the seventh seeding round
+ADDED7 = {
+    "C01": "R-01.12 runs the Parser rule of C04 R-04.5: every wire Parser is built over the whole buffer (never a slice) and positioned through the bounded seek().",
+    "C02": "R-02.10 runs the ExceptionWrapper rule of C04 R-04.3 (the per-type reader is wholly inside the FormError wrapper, which converts every foreign exception). R-02.11 the range refusals of LOC.from_wire_parser, evaluated by the checker at MIN-1, MIN, MAX, MAX+1 over the folded constants, accept exactly [MIN, MAX].",
+    "C03": "R-03.11 only the reasoned table of record writers hands the compression table to an embedded name.",
+    "C04": "R-04.5 also: Parser.__init__ seeks; parsers are not built over slices. R-04.12 `.decode()` of raw option octets in an option's to_text is guarded by all(...); dns.grange.from_text returns a step >= 1.",
+    "C05": "R-05.1 also decides the two Bitmap width exceptions from Bitmap.__init__'s refusals (windows <= 255). R-05.13 LOC's optional tail is printed under a disjunction of one `!= default` test per printed field.",
+    "C06": "R-06.10 NameDict's private store starts empty and is written only through __setitem__ (max_depth bookkeeping).",
+    "C07": "R-07.9 no method of dns.set.Set rebinds self.",
+    "C08": "R-08.8 also: use_edns stores request_payload unconditionally. R-08.9 adopts C14 R-14.3 (mac_sizes agrees with the digests).",
+    "C09": "R-09.4 also adopts C05 R-05.1t (text production cannot fail).",
+    "C10": "R-10.4 also: _end calls _end_transaction on every path.",
+    "C11": "R-11.5 also adopts C19 R-19.2; R-11.6 also C10 R-10.4.",
+    "C12": "R-12.8 also adopts C10 R-10.5.",
+    "C13": "R-13.7 also adopts C20 R-20.2 (newest base).",
+    "C14": "R-14.5 also: make_response binds every response to a signed query to query.mac (not conditional on tsig_error). R-14.9 add_tsig/add_multi_tsig name the signing key's own algorithm in the TSIG record.",
+    "C15": "R-15.8 every return of Name.canonicalize is Name([x.lower() for x in self.labels]).",
+    "C16": "R-16.7 also adopts C18 R-18.1, R-18.2 and R-18.5.",
+    "C18": "R-18.7 async socket calls get a relative timeout. R-18.8 opcode.from_flags inverts to_flags for all sixteen opcodes under any other flag bits (evaluated); async functions have their sync twins' parameter defaults.",
+    "C19": "R-19.6 also: next() and prev() clear the same fields before moving.",
+    "C20": "R-20.5 also adopts C19 R-19.6.",
+}
+for _pid, _t in ADDED7.items():
+    CLAIMS[_pid]["text"] = CLAIMS[_pid]["text"].rstrip() + " Round 7: " + _t
+
 NA_REASON = {}
 def na(pid, reason):
     NA_REASON[pid] = reason
@@ -219,7 +244,7 @@ m = {
               "baseline_off_cmd": "cd /repo && /venv/bin/python -m pytest -q -p no:cacheprovider --timeout=900 --continue-on-collection-errors",
               "source_commits": [], "add_only": True},
     "engines": [{"name": "vcheck", "path": "/verif/vcheck.py", "serves_properties": sorted(CLAIMS),
-                 "kind_free_text": "repository-specific static analyser (stdlib ast; own program model, CFG with exceptional edges and dominance, call resolution, escape/effect analyses, layout and twin projections, source patterns with metavariables over a normal form); thorough tier adds a witness self-test on scratch copies (edits that must fire, refactor twins that must stay silent)"}],
+                 "kind_free_text": "repository-specific static analyser (stdlib ast; own program model, CFG with exceptional edges and dominance, call resolution, escape/effect analyses, layout and twin projections, source patterns with metavariables over a normal form, a small expression evaluator for constant propagation over finite domains); thorough tier adds a witness self-test on scratch copies (edits that must fire, refactor twins that must stay silent)"}],
     "checks": checks,
     "notes": "Static analysis only (see DESIGN.md). Exit 0 pass / 1 VIOLATION / 2 ANALYSIS-ERROR (checker blind: anchor vanished, unknown shape, instance floor). Known findings: /verif/known_findings.json.",
     "not_applicable": [{"property_id": p["id"], "reason": NA_REASON.get(p["id"], "check not built yet (work in progress); DESIGN.md section 3 lists the planned structural rules")}
